@@ -729,7 +729,10 @@ class ExcelInPython:
         method = self.__dict__.get(cell_uid, self.__class__.__dict__.get(cell_uid))
         # Ищем значение значение ячейки среди установленных в ручную через set_cells, если не находим, считаем результат
         # с помощью найденного выше метода, если же не найден и метод, возвращаем "пустую ячейку"
-        return self._arguments.get(cell_uid, method(self) if method else self.EmptyCell())
+        # (метод не вычисляется, если значение задано вручную: формула переопределенной ячейки ни на что не влияет)
+        if cell_uid in self._arguments:
+            return self._arguments[cell_uid]
+        return method(self) if method else self.EmptyCell()
 
     def exec_function_in(self, cell_uid: str):
         return self._cell_preprocessor(cell_uid)
